@@ -1,40 +1,46 @@
 /* C01: secp256k1_ecdsa_sig_verify - range gates and the two x comparisons, for all (r,s,m,Q).
- * Oracles: scalar_inverse_var, scalar_mul, ecmult, gej_eq_x_var (the last three with ghost logs). */
+ * Oracles: scalar_inverse_var, scalar_mul, ecmult, gej_eq_x_var (the last three with ghost logs).
+ * Oracle usage is stated over VALUES (audit 1 rule): products are identified by their operand values in either
+ * order, not by call position; a NULL generator scalar counts as zero; usage is demanded on the accepting
+ * side and for the verdict, never as a call count on a rejecting path. */
 #define LOG_SCALAR_MUL
 #define LOG_SCALAR_INV
 #define LOG_ECMULT
 #define LOG_GEJ_EQ_X
-#include "assumed.h"
+#include "assumed_C01.h"
 #include "src/secp256k1.c"
 #include "post.h"
 
 void h_sig_verify(void) {
     INPUT(secp256k1_scalar, r); INPUT(secp256k1_scalar, s); INPUT(secp256k1_scalar, m); INPUT(secp256k1_ge, q);
-    int ret; wide rv, svv, n = N_(), p = P_();
+    int ret; wide rv, svv, mv, n = N_(), p = P_(), inv, na, ng;
     __CPROVER_assume(scalar_ok(&r) && scalar_ok(&s) && scalar_ok(&m) && ge_ok(&q) && !q.infinity);
     g_mul_n = 0; g_inv_n = 0; g_ecmult_n = 0; g_eqx_n = 0;
-    rv = sval(&r); svv = sval(&s);
+    rv = sval(&r); svv = sval(&s); mv = sval(&m);
     ret = secp256k1_ecdsa_sig_verify(&r, &s, &q, &m);
     __CPROVER_assert(ret == 0 || ret == 1, "C01 sig_verify: returns 0 or 1");
-    if (rv == 0 || svv == 0) __CPROVER_assert(ret == 0 && g_eqx_n == 0 && g_ecmult_n == 0, "C01 sig_verify: r = 0 or s = 0 rejected before any curve work");
-    if (g_ecmult_n >= 1) {
-        __CPROVER_assert(g_inv_n == 1 && SC_EQ(g_inv_x0, s), "C01 sig_verify: the inverted scalar is s");
-        __CPROVER_assert(g_mul_n == 2 && SC_EQ(g_mul_a0, g_inv_r0) && SC_EQ(g_mul_b0, m) && SC_EQ(g_mul_a1, g_inv_r0) && SC_EQ(g_mul_b1, r), "C01 sig_verify: u1 = s^-1 * m and u2 = s^-1 * r are the products requested");
-        __CPROVER_assert(g_ecmult_has_na0 && g_ecmult_has_ng0 && SC_EQ(g_ecmult_na0, g_mul_r1) && SC_EQ(g_ecmult_ng0, g_mul_r0), "C01 sig_verify: ecmult computes u2*Q + u1*G");
+    if (rv == 0 || svv == 0) __CPROVER_assert(ret == 0, "C01 sig_verify: r = 0 or s = 0 rejected");
+    if (g_eqx_n >= 1) {   /* a verdict was asked for: everything it was asked about must be wired to (r, s, m, Q) */
+        __CPROVER_assert(g_inv_n >= 1 && SC_EQ(g_inv_x0, s), "C01 sig_verify: the inverted scalar is s");
+        inv = sval(&g_inv_r0);
+        na = g_ecmult_has_na0 ? sval(&g_ecmult_na0) : 0; ng = g_ecmult_has_ng0 ? sval(&g_ecmult_ng0) : 0;
+        __CPROVER_assert(g_ecmult_n >= 1 && mul_logged(inv, rv, na) && mul_logged(inv, mv, ng), "C01 sig_verify: ecmult computes (s^-1 * r)*Q + (s^-1 * m)*G, the two factors being products requested from the multiplier");
         __CPROVER_assert(FE_EQ(g_ecmult_a0.x, q.x) && FE_EQ(g_ecmult_a0.y, q.y) && g_ecmult_a0.infinity == 0 && fval(&g_ecmult_a0.z) == 1, "C01 sig_verify: the point multiplied is the public key");
-    }
-    if (g_ecmult_n >= 1 && g_ecmult_r0.infinity) __CPROVER_assert(ret == 0 && g_eqx_n == 0, "C01 sig_verify: result at infinity rejected");
-    if (g_eqx_n >= 1) {
+        __CPROVER_assert(!g_ecmult_r0.infinity, "C01 sig_verify: a result at infinity is never compared");
         __CPROVER_assert(fval(&g_eqx_x0) == rv, "C01 sig_verify: first x comparison is against r");
         __CPROVER_assert(FE_EQ(g_eqx_a0.x, g_ecmult_r0.x) && FE_EQ(g_eqx_a0.z, g_ecmult_r0.z), "C01 sig_verify: compared point is the ecmult result");
     }
+    if (g_ecmult_n >= 1 && g_ecmult_r0.infinity) __CPROVER_assert(ret == 0, "C01 sig_verify: result at infinity rejected");
     if (g_eqx_n >= 2) __CPROVER_assert(fval(&g_eqx_x1) == rv + n && rv + n < p && g_eqx_v0 == 0, "C01 sig_verify: second comparison is against r+n, only when r+n<p and the first failed");
-    if (ret == 1) __CPROVER_assert((g_eqx_n == 1 && g_eqx_v0 == 1) || (g_eqx_n == 2 && g_eqx_v1 == 1), "C01 sig_verify: accepts only on a positive x verdict");
+    if (ret == 1) __CPROVER_assert(rv != 0 && svv != 0 && ((g_eqx_n == 1 && g_eqx_v0 == 1) || (g_eqx_n == 2 && g_eqx_v1 == 1)), "C01 sig_verify: accepts only on a positive x verdict");
     if (ret == 0 && g_eqx_n == 1) __CPROVER_assert(g_eqx_v0 == 0 && rv + n >= p, "C01 sig_verify: single-comparison reject only when r+n>=p");
     if (ret == 0 && g_eqx_n == 2) __CPROVER_assert(g_eqx_v1 == 0, "C01 sig_verify: double-comparison reject only on a negative verdict");
-    if (rv != 0 && svv != 0 && !g_ecmult_r0.infinity) __CPROVER_assert(g_eqx_n >= 1, "C01 sig_verify: a finite result is always compared");
+    if (rv != 0 && svv != 0 && g_ecmult_n >= 1 && !g_ecmult_r0.infinity) __CPROVER_assert(g_eqx_n >= 1, "C01 sig_verify: a finite result is always compared");
+    if (rv != 0 && svv != 0) __CPROVER_assert(g_ecmult_n >= 1, "C01 sig_verify: a signature in range is always checked on the curve");
     __CPROVER_assert(g_eqx_n <= 2, "C01 sig_verify: at most two comparisons");
     if (ret == 1 && g_eqx_n == 2) REACH("sig_verify accepts via r+n");
     if (ret == 1 && g_eqx_n == 1) REACH("sig_verify accepts via r");
     if (ret == 0 && g_eqx_n == 1) REACH("sig_verify rejects with r+n>=p");
+    if (ret == 0 && g_ecmult_n >= 1 && g_ecmult_r0.infinity) REACH("sig_verify result at infinity");
+    if (ret == 0 && (rv == 0 || svv == 0)) REACH("sig_verify zero r or s");
 }
